@@ -1,6 +1,7 @@
 package props
 
 import (
+	"context"
 	"encoding/json"
 	"fmt"
 	"strconv"
@@ -8,6 +9,7 @@ import (
 	"testing"
 	"unicode/utf8"
 
+	"github.com/aundis/formula"
 	"pgregory.net/rapid"
 
 	"verif/internal/h"
@@ -340,6 +342,19 @@ func TestC13Lookalikes(t *testing.T) {
 	defer run.End(t)
 	one := func(text, cls string, lit string) string {
 		msg := checkString(lit, text)
+		if msg == "" {
+			// one runner first evaluates the text as a formula of its own (a number, a keyword, a call - when it
+			// parses), then the string literal: still that string
+			r := formula.NewRunner()
+			if q := obs.Parse([]byte(text)); q.OK() {
+				obs.Eval(r, context.Background(), q.Src.Expression)
+			}
+			if q := obs.Parse([]byte(lit)); q.OK() {
+				if o := obs.Eval(r, context.Background(), q.Src.Expression); o.Panic != nil || o.Err != nil || o.Val != interface{}(text) {
+					msg = fmt.Sprintf("literal %s evaluates to %s on a runner that evaluated the formula %q before, want the text %q", strconv.QuoteToASCII(lit), o, text, text)
+				}
+			}
+		}
 		if msg == "" {
 			out := obs.EvalText("[typeof "+lit+", "+lit+" == "+lit+", "+lit+" + '' == '' + "+lit+"]", nil)
 			if arr, ok := out.Val.([]interface{}); out.Panic != nil || out.Err != nil || !ok || len(arr) != 3 || arr[0] != "string" || arr[1] != true || arr[2] != true {
